@@ -137,7 +137,7 @@ def run(chk, replay=None):
                 chk.nontrivial('big|%s|%d|%s|%s' % (total, n, dtype, scale))
     # forecasts whose rate array holds whole numbers (an integer dtype) scaled by a non-integer factor: the total is the
     # scaled sum whatever the storage type of the rates
-    for factor in (0.5, 0.25, 2.5):
+    for factor in (0.5, 0.25, 2.5, 0.99999, 1.000004, 1 - 2.0 ** -20):       # (the last three: almost, but not, unscaled)
         for dtype in ('int64', 'int32', 'float64'):
             data = numpy.array([[12, 3], [20, 1], [4, 0]], dtype=dtype)
             fci = B.forecast(numpy.array(data, dtype=float), dtype=dtype)
